@@ -123,20 +123,24 @@ func AutoSave(s *eval.State, options Options) error {
 		log.Infof("Nothing changed, not auto saving")
 		return nil
 	}
+	verifCrashPoint("before-create")
 	f, err := os.CreateTemp(".", ".grol*.tmp")
 	if err != nil {
 		return err
 	}
+	verifCrashPoint("after-create")
 	// Write to temp file.
 	n, err := s.SaveGlobals(f)
 	if err != nil {
 		return err
 	}
+	verifCrashPoint("before-rename")
 	// Rename "atomically" (not really but close enough).
 	err = os.Rename(f.Name(), AutoSaveFile)
 	if err != nil {
 		return err
 	}
+	verifCrashPoint("after-rename")
 	log.Infof("Auto saved %d ids/fns (%d set) to: %s", n, updates, AutoSaveFile)
 	return nil
 }
